@@ -257,16 +257,26 @@ Qed.
 Definition is_empty_state (q : qstate) : Prop :=
   match q_pol q with
   | PFifo | PRandom | PGrouped _ => q_ordering q = []
-  | PInter _ | PBlockedRandom => q_complete q = true
+  | PInter _ | PBlockedRandom => q_complete q = true \/ q_ordering q = []
   end.
 
-Lemma next_key_empty R q : next_key R q = NEmpty <-> is_empty_state q.
+Lemma zlen_eq0_nil {A} (l : list A) : (zlen l =? 0) = true <-> l = [].
+Proof. unfold zlen. destruct l; cbn [length]; split; intros H; try reflexivity; try discriminate; lia. Qed.
+
+(* under the repair r_empty_guard (interleaved / blocked-random queues with nothing queued report empty) *)
+Lemma next_key_empty R (HR : r_empty_guard R = true) q : next_key R q = NEmpty <-> is_empty_state q.
 Proof.
-  unfold next_key, is_empty_state. destruct (q_pol q) eqn:Ep.
+  unfold next_key, is_empty_state. rewrite HR. destruct (q_pol q) eqn:Ep.
   - destruct (q_ordering q); split; intros H; congruence.
-  - destruct (q_complete q); split; intros H; try congruence. bm H.
+  - destruct (q_complete q); [split; auto|].
+    destruct (zlen (q_ordering q) =? 0) eqn:Z0.
+    + apply zlen_eq0_nil in Z0. split; auto.
+    + split; [intros H; bm H|]. intros [H|H]; [discriminate|]. apply zlen_eq0_nil in H. congruence.
   - destruct (q_ordering q); split; intros H; try congruence. bm H.
-  - destruct (q_complete q); split; intros H; try congruence. bm H.
+  - destruct (q_complete q); [split; auto|]. cbn [andb].
+    destruct (zlen (q_ordering q) =? 0) eqn:Z0.
+    + apply zlen_eq0_nil in Z0. split; auto.
+    + split; [intros H; bm H|]. intros [H|H]; [discriminate|]. apply zlen_eq0_nil in H. congruence.
   - destruct (q_ordering q); split; intros H; try congruence. bm H.
 Qed.
 
@@ -325,9 +335,9 @@ Proof.
   rewrite D2, C2 in *. repeat split; auto; try congruence. lia.
 Qed.
 
-Lemma next_trial_empty R q : next_trial R q = NTempty <-> is_empty_state q.
+Lemma next_trial_empty R (HR : r_empty_guard R = true) q : next_trial R q = NTempty <-> is_empty_state q.
 Proof.
-  rewrite <- (next_key_empty R). unfold next_trial.
+  rewrite <- (next_key_empty R HR). unfold next_trial.
   destruct (next_key R q) as [key q1| |]; split; intros H; try congruence.
   bm H.
 Qed.
@@ -519,8 +529,8 @@ Proof.
     split; [rewrite F8, D10, C3; exact I7|]. rewrite F9, D11, C9.
     assert (Hc : q_complete q = false).
     { destruct (q_complete q) eqn:Ec; [|reflexivity].
-      assert (is_empty_state q) by (unfold is_empty_state; rewrite I5; exact Ec).
-      apply (next_key_empty all_rep) in H0. rewrite H0 in Hk. discriminate. }
+      assert (is_empty_state q) by (unfold is_empty_state; rewrite I5; left; exact Ec).
+      apply (next_key_empty all_rep eq_refl) in H0. rewrite H0 in Hk. discriminate. }
     rewrite Hc. cbn [orb]. apply all_done_trials. rewrite F2, D2, C2.
     rewrite (map_upd_entry e_trials _ key adv_delay); auto.
 Qed.
